@@ -1,7 +1,7 @@
 """C02 - lowest cloud layer and ceiling are never suppressed; NCD/NSC mean what they say."""
 from harness.common import *
 from harness import msg as M
-from harness import c07
+from harness import c07, pipeline
 
 SPEC = {
     'technique': 'symbolic execution of CeiloChunk.metar_msg on directly constructed chunks (same exploration shape as '
@@ -23,6 +23,10 @@ def h_flag(E, N, msa_none, full):
     return [c for c in c07.h_crop(E, N, msa_none, full) if 'flag' in c[0] or c[0] == 'no exception']
 
 
+def h_run(E, N, C, pvar, chk):
+    return pipeline.h_run(E, N, C, pvar, chk, 'C02')
+
+
 from harness.c01 import _sizes, TH_EXTRA  # noqa: E402
 HARNESSES = [
     H('H-msg', h_msg_c02, quick=_sizes(3, 4), thorough=_sizes(3, 4) + TH_EXTRA, float_model='R',
@@ -33,5 +37,8 @@ HARNESSES = [
       float_model='R', cover=['flag raised', 'flag not raised with hits above'],
       assumptions=c07.HARNESSES[0].assumptions,
       doc='real _cleanup_pdf: the high-cloud flag is raised exactly when more than MAX_HITS_OKTA0 hits lie above MSA+buffer'),
+    H('H-run-msg', h_run, quick=[(1, 1, 2, 0), (2, 1, 2, 0)], thorough=[(1, 1, 2, 0), (2, 1, 2, 0), (2, 2, 2, 0), (2, 1, 0, 0)], float_model='R',
+      cover=['two slices', 'NCD', 'NSC'], assumptions=['utils.check_data_consistency replaced by a stand-in on the accepted table (C15)'],
+      doc='whole chain with a symbolic MSA, buffer and threshold: each message against the table it was made from and the real high-cloud flag'),
 ]
 get_harness = make_get(HARNESSES)
